@@ -7,13 +7,21 @@ ID="$1"; TIER="${2:-${VERIF_TIER:-quick}}"
 ROOT="$(cd "$(dirname "$0")" && pwd)"
 cd "$ROOT/harness" || exit 3
 export CARGO_NET_OFFLINE=true RUST_BACKTRACE=0 RUST_LIB_BACKTRACE=0
-FEAT=""; TDIR="target"
-case "$ID" in
-  *-small) FEAT="--features small"; TDIR="target-small";;
-esac
-if ! cargo build --release --offline $FEAT --target-dir "$TDIR" >"$ROOT/harness/build-$TDIR.log" 2>&1; then
-  echo "BUILD FAILED: harness does not build against /repo (see harness/build-$TDIR.log)"
-  grep -E "^error" -A8 "$ROOT/harness/build-$TDIR.log" | head -40
-  exit 3
+build() { # $1 = target dir, $2 = extra cargo flags
+  if ! cargo build --release --offline $2 --target-dir "$1" >"$ROOT/harness/build-$1.log" 2>&1; then
+    echo "BUILD FAILED: harness does not build against /repo (see harness/build-$1.log)"
+    grep -E "^error" -A8 "$ROOT/harness/build-$1.log" | head -40
+    exit 3
+  fi
+}
+build target ""
+if [ "$ID" = "C11" ]; then
+  # C11 also runs under ciphercore-base's own `fuzzing` feature (small type-size limits) so that
+  # the size-limit rollback paths are reached; its evidence is embedded in evidence/C11.json
+  build target-small "--features small"
+  VERIF_TIER="$TIER" VERIF_ROOT="$ROOT" VH_EVIDENCE_NAME=C11-small ./target-small/release/vharness C11
+  rc=$?
+  [ $rc -ne 0 ] && exit $rc
+  VERIF_TIER="$TIER" VERIF_ROOT="$ROOT" VH_EMBED="$ROOT/evidence/C11-small.json" exec ./target/release/vharness C11
 fi
-VERIF_TIER="$TIER" VERIF_ROOT="$ROOT" exec "./$TDIR/release/vharness" "${ID%-small}"
+VERIF_TIER="$TIER" VERIF_ROOT="$ROOT" exec ./target/release/vharness "$ID"
